@@ -220,7 +220,7 @@ std::string run_isolated(const std::string& line)
 	if (pid == 0)
 	{
 		dup2(efd, 2);
-		struct rlimit rl; rl.rlim_cur = rl.rlim_max = 8;
+		struct rlimit rl; rl.rlim_cur = rl.rlim_max = 30;
 		setrlimit(RLIMIT_CPU, &rl);
 		std::ostringstream os;
 		run_case3(line, os);
@@ -239,7 +239,7 @@ std::string run_isolated(const std::string& line)
 		long rss(0);
 		if (proc_usage(pid, cpu, rss) && (cpu > 2.0 || rss > rss0 + 1024 * 1024))
 			hung = true;
-		if (now() - t0 > 60) hung = true;
+		if (now() - t0 > 120) hung = true;
 		if (hung)
 		{
 			kill(pid, SIGKILL);
